@@ -450,9 +450,10 @@ fn make_subject(ctx: &mut Ctx, d: &SubjDesc, cap: usize, arena: bool) -> Option<
 
 #[derive(Debug, Clone, Serialize, Deserialize)]
 enum CCase {
-    Hist { subj: SubjDesc, depth: u8, cap: usize },
+    /// `origin`: 0 = the value as built, 1 = a clone of it, 2 = a deserialized copy of it (never queried before)
+    Hist { subj: SubjDesc, depth: u8, cap: usize, #[serde(default)] origin: u8 },
     /// replay of one history
-    History { subj: SubjDesc, cap: usize, queries: Vec<Q> },
+    History { subj: SubjDesc, cap: usize, queries: Vec<Q>, #[serde(default)] origin: u8 },
     Sched { subj: SubjDesc, threads: u8, per_thread: u8, batches: usize },
     Stress { subj: SubjDesc, threads: u8, rounds: usize },
     /// instruction-level preemption exploration (bound 1) of query pairs after a prefix history
@@ -480,8 +481,9 @@ fn solo_answers(ctx: &mut Ctx, s: &dyn Subj, alpha: &[Q]) -> Vec<Result<Ans, Str
         .collect()
 }
 
-fn run_hist(ctx: &mut Ctx, me: &CCase, d: &SubjDesc, depth: u8, cap: usize) {
+fn run_hist(ctx: &mut Ctx, me: &CCase, d: &SubjDesc, depth: u8, cap: usize, origin: u8) {
     let Some((s, alpha)) = make_subject(ctx, d, cap, true) else { return };
+    let s: Arc<dyn Subj> = if origin == 0 { s } else { in_arena(true, || s.copy(origin)) };
     let s: &dyn Subj = &*s;
     let bytes0 = s.bytes();
     let dig0 = arena_digest();
@@ -528,8 +530,8 @@ fn run_hist(ctx: &mut Ctx, me: &CCase, d: &SubjDesc, depth: u8, cap: usize) {
             let got = ask(s, &alpha[qi]);
             if got != fresh[qi] && *reported < 5 {
                 *reported += 1;
-                if let CCase::Hist { subj, cap, .. } = me {
-                    ctx.case_desc = serde_json::to_value(CCase::History { subj: subj.clone(), cap: *cap, queries: stack.iter().map(|&i| alpha[i].clone()).collect() }).unwrap();
+                if let CCase::Hist { subj, cap, origin, .. } = me {
+                    ctx.case_desc = serde_json::to_value(CCase::History { subj: subj.clone(), cap: *cap, queries: stack.iter().map(|&i| alpha[i].clone()).collect(), origin: *origin }).unwrap();
                 }
                 ctx.violation(
                     "query after a history",
@@ -566,8 +568,9 @@ fn run_hist(ctx: &mut Ctx, me: &CCase, d: &SubjDesc, depth: u8, cap: usize) {
     }
 }
 
-fn run_history(ctx: &mut Ctx, d: &SubjDesc, cap: usize, queries: &[Q]) {
+fn run_history(ctx: &mut Ctx, d: &SubjDesc, cap: usize, queries: &[Q], origin: u8) {
     let Some((s, _)) = make_subject(ctx, d, cap, true) else { return };
+    let s: Arc<dyn Subj> = if origin == 0 { s } else { in_arena(true, || s.copy(origin)) };
     // each step is compared with a dedicated fresh instance
     for (j, q) in queries.iter().enumerate() {
         let got = ask(&*s, q);
@@ -954,8 +957,8 @@ fn run_preempt(ctx: &mut Ctx, d: &SubjDesc, max_triples: usize, fresh_mode: u8) 
 impl Case for CCase {
     fn run(&self, ctx: &mut Ctx) {
         match self {
-            CCase::Hist { subj, depth, cap } => run_hist(ctx, self, subj, *depth, *cap),
-            CCase::History { subj, cap, queries } => run_history(ctx, subj, *cap, queries),
+            CCase::Hist { subj, depth, cap, origin } => run_hist(ctx, self, subj, *depth, *cap, *origin),
+            CCase::History { subj, cap, queries, origin } => run_history(ctx, subj, *cap, queries, *origin),
             CCase::Sched { subj, threads, per_thread, batches } => run_sched(ctx, subj, *threads, *per_thread, *batches),
             CCase::Stress { subj, threads, rounds } => run_stress(ctx, subj, *threads, *rounds),
             CCase::Preempt { subj, max_triples, fresh } => run_preempt(ctx, subj, *max_triples, *fresh),
@@ -1020,9 +1023,13 @@ fn enumerate(args: &Args) -> Vec<CCase> {
     let th = args.tier == "thorough";
     let mut v = Vec::new();
     for s in subjects(th) {
-        v.push(CCase::Hist { subj: s.clone(), depth: 2, cap: if th { 200 } else { 130 } });
+        v.push(CCase::Hist { subj: s.clone(), depth: 2, cap: if th { 200 } else { 130 }, origin: 0 });
+        // the same histories on a clone and on a deserialized copy (states the constructors do not produce directly)
+        for origin in [1u8, 2] {
+            v.push(CCase::Hist { subj: s.clone(), depth: if th { 2 } else { 1 }, cap: if th { 100 } else { 130 }, origin });
+        }
         if th {
-            v.push(CCase::Hist { subj: s.clone(), depth: 3, cap: 64 });
+            v.push(CCase::Hist { subj: s.clone(), depth: 3, cap: 64, origin: 0 });
         }
         v.push(CCase::Sched { subj: s.clone(), threads: 2, per_thread: 3, batches: if th { 12 } else { 3 } });
         v.push(CCase::Sched { subj: s.clone(), threads: 3, per_thread: 2, batches: if th { 6 } else { 1 } });
